@@ -211,6 +211,11 @@ func swExec(op string, res *Result) string {
 			if err == nil && k != n {
 				res.Violation = &Violation{Kind: "history", Site: "io.Writer.Write", Symptom: "short-write-without-error", What: fmt.Sprintf("Write(%d) returned (%d, nil)", n, k)}
 			}
+			if closeOK && err == nil && res.Violation == nil {
+				// C17: every Write after a successful Close (any length, incl. 0) fails with an error
+				res.Violation = &Violation{Kind: "history", Site: "io.Writer.Write", Symptom: "write-after-close-accepted",
+					What: fmt.Sprintf("Write(%d) after Close returned (%d, nil)", n, k)}
+			}
 			off += k
 			if cls == "task" || cls == "failed" {
 				stickyFailed = true
